@@ -39,27 +39,49 @@ PROFILE = profile(nv=(3, 8), n_requests=(10, 60), builtin=[True], n_scripted=[1]
 WORKER_TZ = [None, "JST-9", "MST7", "CET-1", "UTC0"]
 
 
+FRESH = 1  # the worker that is a brand-new process for every scenario
+
+
 class Pool:
     def __init__(self, hash_seeds: List[int]):
         self.seeds = hash_seeds
-        self.procs = []
-        for i, h in enumerate(hash_seeds):
-            env = dict(os.environ)
-            env["PYTHONHASHSEED"] = str(h)
-            env["PYTHONPATH"] = f"{REPO}:{VERIF}:{VERIF}/.deps"
-            # "whichever process runs it": the workers also differ in their local time zone (POSIX TZ strings, no zone
-            # database needed): worker 0 keeps the caller's zone, the others run at UTC+9, UTC-7, UTC+1, ...
-            tz = WORKER_TZ[i % len(WORKER_TZ)]
-            if tz is not None:
-                env["TZ"] = tz
-            p = subprocess.Popen([sys.executable, "-m", "hv.c01worker"], stdin=subprocess.PIPE, stdout=subprocess.PIPE, stderr=subprocess.DEVNULL,
-                                 env=env, cwd=str(VERIF), text=True, bufsize=1)
-            self.procs.append(p)
+        self.procs = [self._spawn(i) for i in range(len(hash_seeds))]
+        self.spare = None
+
+    def _spawn(self, i: int):
+        env = dict(os.environ)
+        env["PYTHONHASHSEED"] = str(self.seeds[i])
+        env["PYTHONPATH"] = f"{REPO}:{VERIF}:{VERIF}/.deps"
+        # "whichever process runs it": the workers also differ in their local time zone (POSIX TZ strings, no zone
+        # database needed): worker 0 keeps the caller's zone, the others run at UTC+9, UTC-7, UTC+1, ...
+        tz = WORKER_TZ[i % len(WORKER_TZ)]
+        if tz is not None:
+            env["TZ"] = tz
+        return subprocess.Popen([sys.executable, "-m", "hv.c01worker"], stdin=subprocess.PIPE, stdout=subprocess.PIPE, stderr=subprocess.DEVNULL,
+                                env=env, cwd=str(VERIF), text=True, bufsize=1)
+
+    def _retire(self, p) -> None:
+        try:
+            p.stdin.write(json.dumps({"kind": "quit"}) + "\n")
+            p.stdin.flush()
+            p.stdin.close()
+            p.wait(timeout=20)
+        except Exception:
+            p.kill()
 
     def run(self, job: Dict[str, Any], only: Optional[List[int]] = None) -> List[Dict[str, Any]]:
         idx = list(range(len(self.procs))) if only is None else only
+        if FRESH in idx and len(self.procs) > FRESH:
+            # "whichever process runs it": worker FRESH is a new process for every scenario and runs nothing else, while the long-lived
+            # workers have the earlier scenarios (and this scenario's warm-up world) behind them. The replacement was started
+            # while the previous scenario ran, so its imports are done.
+            self._retire(self.procs[FRESH])
+            self.procs[FRESH] = self.spare if self.spare is not None else self._spawn(FRESH)
+            self.spare = self._spawn(FRESH)
         for i in idx:
             j = dict(job)
+            if i == FRESH:
+                j.pop("warm", None)
             j["twice"] = (i == len(self.procs) - 1) and only is None  # last worker repeats in-process
             self.procs[i].stdin.write(json.dumps(j) + "\n")
             self.procs[i].stdin.flush()
@@ -72,6 +94,9 @@ class Pool:
         return out
 
     def close(self):
+        if self.spare is not None:
+            self.procs.append(self.spare)
+            self.spare = None
         for p in self.procs:
             try:
                 p.stdin.write(json.dumps({"kind": "quit"}) + "\n")
@@ -136,6 +161,8 @@ def check_case(case: Dict[str, Any], pool: Optional[Pool] = None, seeds: Optiona
             job = {"kind": "shipped", "name": case["shipped"], "steps": case["steps"], "reinject": case.get("reinject", False)}
         else:
             job = {"kind": "spec", "world": case["world"], "steps": case["steps"], "det": case.get("det", False), "reinject": case.get("reinject", False)}
+            if case.get("warm"):
+                job["warm"] = case["warm"]
         results = pool.run(job)
         out = _compare(job, results, seeds, pool)
         for v in out:
@@ -156,8 +183,44 @@ PROFILE_QUEUE = profile(nv=(5, 9), n_requests=(0, 6), builtin=[True], n_scripted
                         timeouts=[600], steps=[60, 60, 120, 300], humans=False, soc_limits=[0.8, 1.0], plug_types=["DCFC", "DCFC", "LEVEL_2", "GAS_PUMP"])
 
 
+def _mech_variant(k: int) -> Optional[Dict[str, Any]]:
+    """vehicle definitions are input: the same ids with other nominal consumptions / idle draws (None = the standard table)"""
+    import copy
+
+    from hv.worlds import MECHATRONICS_YAML
+
+    if not k:
+        return None
+    m = copy.deepcopy(MECHATRONICS_YAML)
+    f = [None, 1.5, 0.7][k]
+    for d in m.values():
+        for key in ("nominal_watt_hour_per_mile", "idle_kwh_per_hour", "idle_gallons_per_hour"):
+            if key in d:
+                d[key] = round(d[key] * f, 4)
+        if "nominal_miles_per_gallon" in d:
+            d["nominal_miles_per_gallon"] = round(d["nominal_miles_per_gallon"] / f, 3)
+    return m
+
+
 @st.composite
 def st_case(draw) -> Dict[str, Any]:
+    case = draw(_st_case())
+    mv = _mech_variant(draw(st.sampled_from([0, 0, 1, 2])))
+    if mv is not None:
+        case["world"]["mechatronics"] = mv
+    # what the long-lived workers have loaded and stepped in the same process just before (the fresh worker has not):
+    # another small world with its own vehicle definitions
+    if draw(st.booleans()):
+        warm = draw(st_world(profile(nv=(1, 3), n_requests=(0, 4), builtin=[True], n_scripted=[1], fleets=[0], stations=(1, 1), bases=(1, 1), nets=["hav"], humans=False)))
+        wv = _mech_variant(draw(st.sampled_from([0, 1, 2])))
+        if wv is not None:
+            warm["mechatronics"] = wv
+        case["warm"] = warm
+    return case
+
+
+@st.composite
+def _st_case(draw) -> Dict[str, Any]:
     if draw(st.sampled_from([False, False, True])):
         w = draw(st_world(PROFILE_QUEUE))
         # stack the vehicles on at most two sites
